@@ -211,9 +211,12 @@ def decide_item(prop, kind, name, opts, tier, seed, known):
     else:
         item["bounded_only"] = opts.get("bounded_only")
     proved = False
+    partial = bool(opts.get("partial"))
     if pr is not None:
         item.update(pr.summary())
-        item["status"] = "proved" if (pr.n_obligations > 0 and not pr.failed) else "undischarged"
+        item["status"] = "proved" if (pr.n_obligations > 0 and not pr.failed) else ("partially discharged (declared partial: bounded stand-in decides)" if partial else "undischarged")
+        if partial:
+            item["partial_reason"] = opts.get("partial")
         out["obl"], out["dis"] = pr.n_obligations, pr.n_discharged
         out["trusted"] = set(pr.trusted)
         for smp in pr.samples:
@@ -261,7 +264,18 @@ def decide_item(prop, kind, name, opts, tier, seed, known):
                         rp = write_replay(prop, kind, name, out_n.clause, f"solver counterexample confirmed natively: {out_n.detail}", cx, ob.solver_output, ob.label)
                         out["violations"].append((rp, ""))
                         found_input = True
-    if pr is not None and pr.failed and not found_input:
+    if pr is not None and pr.failed and not found_input and partial:
+        # declared partial: open obligations on unchanged source are expected (listed in the evidence, not counted as
+        # discharged); after a source change an open obligation with no bounded counterexample is reported
+        base_ok = set(load_partial_baseline().get(name, []))
+        newly_open = [ob for ob in pr.failed if norm_label(ob.label) in base_ok]
+        item["open_obligations"] = [ob.label for ob in pr.failed][:40]
+        if pr.source_changed and newly_open:
+            ob = newly_open[0]
+            rp = write_replay(prop, kind, name, ob.label, f"{len(newly_open)} obligations that were discharged on the baseline source are open after the change ({ob.status})",
+                              None, ob.solver_output, ob.label)
+            out["violations"].append((rp, " no-failing-input-found"))
+    elif pr is not None and pr.failed and not found_input:
         for ob in pr.failed:
             if ob.status == "vacuous":
                 out["problems"].append(f"vacuity canary proved for {name}: {ob.label} (contradictory assumptions)")
@@ -407,6 +421,16 @@ def run_selftest(tier, seed):
     return 3 if bad or not n else 0
 
 
+def norm_label(label):
+    import re as _re
+    return _re.sub(r":\d+:", ":", label)
+
+
+def load_partial_baseline():
+    p = os.path.join(ROOT, "baseline", "partial.json")
+    return json.load(open(p)) if os.path.exists(p) else {}
+
+
 def rebaseline():
     from pyvc import prove
     loader.load()
@@ -418,6 +442,17 @@ def rebaseline():
     os.makedirs(os.path.dirname(prove.BASELINE), exist_ok=True)
     json.dump(out, open(prove.BASELINE, "w"), indent=1, sort_keys=True)
     print(f"baseline written: {len(out)} function hashes")
+    partial = {}
+    for q, ci in spec.CONTRACTS.items():
+        if ci.opts.get("partial"):
+            try:
+                pr = prove.prove_item("contract", q, "thorough", 0)
+            except prove.Demoted:
+                continue
+            failed = {ob.label for ob in pr.failed}
+            partial[q] = sorted({norm_label(l) for l in pr.all_labels if l not in failed})
+            print(f"partial baseline for {q}: {len(partial[q])} discharged, {len(failed)} open")
+    json.dump(partial, open(os.path.join(ROOT, "baseline", "partial.json"), "w"), indent=1, sort_keys=True)
     return 0
 
 
